@@ -96,6 +96,12 @@ def run(c):
             add("plain", b0 + one * 6)
             if thorough or rng.random() < 0.2:
                 add("plain", b0 + one * 64 + max(es, key=len))
+    # relations BETWEEN elements and between a mandatory value and the optional part: every pair of different optional elements
+    # in definition order and the full set, contents of their own; small values of each one-octet mandatory element with each
+    # optional element behind (a decoder that cross-checks or post-processes what it has read branches on these)
+    for m, (b0, singles) in sorted(singles_by_message(gen).items()):
+        for v in canonical_pairs(m, b0, singles): add("plain", v)
+        for v in mand_value_inputs(m, b0, singles, range(256) if thorough else list(range(8)) + [0x0F, 0x80, 0xFF]): add("plain", v)
     # contents, not framing: the first content octet of every optional element takes many values (a decoder that inspects
     # contents - a code, a type, a sub-length - branches on it), and variable-length elements are filled with text that is
     # dangerous when it reaches a formatter (printf directives with huge widths), after a valid mandatory part and alone
